@@ -34,6 +34,17 @@ func main() {
 		os.Exit(cmdList(os.Args[2:]))
 	case "check":
 		os.Exit(cmdCheck(os.Args[2:]))
+	case "summary":
+		e, err := loadEngine("/repo")
+		if err != nil {
+			fmt.Fprintln(os.Stderr, err)
+			os.Exit(2)
+		}
+		for _, n := range os.Args[2:] {
+			if fn := e.funcs[n]; fn != nil {
+				fmt.Printf("%s: %s\n", n, e.summary(fn))
+			}
+		}
 	default:
 		fmt.Fprintln(os.Stderr, "unknown command", os.Args[1])
 		os.Exit(2)
